@@ -296,6 +296,11 @@ class Canon:
     def _fold(self, e):
         if isinstance(e, ast.Call) and isinstance(e.func, ast.Name):
             e.func._is_callee = True
+        if isinstance(e, (ast.ListComp, ast.SetComp, ast.GeneratorExp, ast.DictComp)):
+            # the variable of `for i in range(..)` is an integer inside the comprehension
+            for g_ in e.generators:
+                if isinstance(g_.iter, ast.Call) and isinstance(g_.iter.func, ast.Name) and g_.iter.func.id == "range" and isinstance(g_.target, ast.Name):
+                    self.extra_ints = set(self.extra_ints) | {g_.target.id}
         for fld, val in ast.iter_fields(e):
             if isinstance(val, ast.AST):
                 setattr(e, fld, self._fold(val))
@@ -469,6 +474,9 @@ class Canon:
         if isinstance(e, ast.Call) and isinstance(e.func, ast.Name) and e.func.id == "int" and len(e.args) == 2 and isinstance(e.args[1], ast.Constant) and e.args[1].value == 16 \
                 and isinstance(e.args[0], ast.Call) and norm(e.args[0].func) in ("binascii.hexlify", "hexlify", "b2h") and len(e.args[0].args) == 1:
             return ast.Call(ast.Attribute(ast.Name("int", ast.Load()), "from_bytes", ast.Load()), [e.args[0].args[0], ast.Constant("big")], [])
+        if isinstance(e, ast.Call) and isinstance(e.func, ast.Attribute) and e.func.attr == "decode" and len(e.args) == 1 and isinstance(e.args[0], ast.Constant) and e.args[0].value in ("ascii", "utf-8", "UTF-8", "latin1", "latin-1") \
+                and isinstance(e.func.value, ast.Call) and norm(e.func.value.func) in ("binascii.hexlify", "hexlify", "binascii.b2a_hex", "b2a_base64", "binascii.b2a_base64"):
+            e.args[0] = ast.Constant("utf8")         # the text of hex digits / base64 is ASCII: every ASCII-compatible codec decodes it alike
         if isinstance(e, ast.Call) and isinstance(e.func, ast.Name) and e.func.id == "ord" and len(e.args) == 1 and not e.keywords and isinstance(e.args[0], ast.Subscript) \
                 and isinstance(e.args[0].slice, ast.Slice) and e.args[0].slice.step is None:
             # ord(b[k:k+1]) is b[k] for a byte string (ord(b[:1]) is b[0]); on an empty slice both fail, with different error types
@@ -558,6 +566,10 @@ class Canon:
                 items = list(g.iter.elts)
             if items is not None:
                 return ast.List([self._fold(_replace_name(e.elt, g.target.id, it_)) for it_ in items], ast.Load())
+        if isinstance(e, ast.BinOp) and isinstance(e.op, ast.Mod) and isinstance(e.left, ast.Constant) and isinstance(e.left.value, str) and e.left.value.count("%") == 1 \
+                and e.left.value.count("%d") == 1 and not isinstance(e.right, (ast.Tuple, ast.Dict, ast.Constant)) and self.is_int(e.right):
+            # "%d" of an integer is "%s" of it
+            e = ast.BinOp(ast.Constant(e.left.value.replace("%d", "%s")), ast.Mod(), e.right)
         if isinstance(e, ast.BinOp) and isinstance(e.op, ast.Mod) and isinstance(e.left, ast.Constant) and isinstance(e.left.value, str) and e.left.value.count("%") == 1 \
                 and e.left.value.count("%s") == 1 and not isinstance(e.right, (ast.Tuple, ast.Dict, ast.Constant)):
             # "OP_%s" % t  is  "OP_" + t  for the strings it is used with
